@@ -127,3 +127,59 @@ def cfacts_file(path, extra_flags=()):
             raise SystemExit("cfacts failed on fixture %s" % path)
         os.replace(out + ".tmp", out)
     return Facts(out)
+
+
+# ---------------------------------------------------------------------------------------------
+# E2: rsfacts
+# ---------------------------------------------------------------------------------------------
+RS_PACKAGES = ["tree-sitter", "tree-sitter-generate", "tree-sitter-loader", "tree-sitter-highlight", "tree-sitter-tags", "tree-sitter-cli"]
+_rs_cache = {}
+
+
+def _rs_run():
+    sys.path.insert(0, os.path.join(HERE, "rsfacts"))
+    import run as rsrun
+    return rsrun
+
+
+def build_rsfacts():
+    rsrun = _rs_run()
+    if hasattr(rsrun, "build_driver"):
+        rsrun.build_driver()
+
+
+def rsfacts_dir():
+    """Directory with one fact file per workspace crate, extracted from REPO's working tree."""
+    hsh = tree_hash([REPO + "/crates", REPO + "/lib/binding_rust", REPO + "/Cargo.toml", REPO + "/Cargo.lock", REPO + "/lib/Cargo.toml",
+                     os.path.join(HERE, "rsfacts", "src")], exts={".rs", ".toml", ".lock", ".inc", ".h", ".json", ".js"},
+                    extra=tree_hash([REPO + "/lib/src", REPO + "/lib/include"], exts={".c", ".h"}))
+    out = os.path.join(CACHE, "facts", "rs-" + hsh)
+    marker = os.path.join(out, ".complete")
+    if not os.path.exists(marker):
+        base = os.path.join(CACHE, "facts")
+        os.makedirs(base, exist_ok=True)
+        keep = int(os.environ.get("VERIF_KEEP_RS", "2"))
+        olds = sorted((d for d in os.listdir(base) if d.startswith("rs-")), key=lambda d: os.path.getmtime(os.path.join(base, d)))
+        import shutil
+        for d in olds[:-keep] if len(olds) > keep else []:
+            shutil.rmtree(os.path.join(base, d), ignore_errors=True)
+        os.makedirs(out, exist_ok=True)
+        rsrun = _rs_run()
+        target = os.environ.get("VERIF_RS_TARGET", os.path.join(CACHE, "rs-target"))
+        try:
+            rsrun.extract(REPO, RS_PACKAGES, out, target)
+        except Exception as e:  # fail closed
+            raise SystemExit("rsfacts failed: %s" % e)
+        open(marker, "w").write(time.strftime("%F %T"))
+    return out
+
+
+def rsfacts(crate):
+    """Facts of one crate, e.g. 'tree_sitter_loader', 'tree_sitter_cli', 'tree_sitter.bin'."""
+    d = rsfacts_dir()
+    p = os.path.join(d, crate + ".json")
+    if p not in _rs_cache:
+        if not os.path.exists(p):
+            raise SystemExit("rsfacts: fact file for crate %s missing" % crate)
+        _rs_cache[p] = Facts(p)
+    return _rs_cache[p]
